@@ -33,6 +33,9 @@ pub enum Act {
     Pause,
     /// auditor: structural audit of whatever version is published right now
     Audit,
+    /// C18 under schedules: get_highest_seqno must cover every write that had returned before
+    /// the call and nothing that was not yet allocated when it returned
+    CheckSeqno,
 }
 
 #[derive(Clone, Debug, serde::Serialize, serde::Deserialize, Default)]
@@ -64,9 +67,12 @@ enum Ev {
     Error { tid: u32, what: String, ev: u64 },
     AuditFail { tid: u32, version: u64, what: String, ev: u64 },
     AuditOk { shape: u64 },
+    SeqnoCheck { tid: u32, ev_start: u64, got: Option<u64>, hi: u64, ev: u64 },
 }
 
 struct SharedState {
+    /// highest seqno of a write that has returned (u64::MAX = none yet)
+    last_done: AtomicU64,
     log: Mutex<Vec<Ev>>,
     ev: AtomicU64,
     live: Mutex<BTreeMap<u64, u32>>, // snapshot seqno -> refcount
@@ -93,6 +99,7 @@ pub fn gen_conc(prop: &PropDef, seed: u64, tier: &str) -> RunSpec {
         next_value_id: 0,
         disc: Default::default(),
         fifo_counter: 0,
+        fifo_descending: false,
     };
     let scale = if tier == "thorough" { 2 } else { 1 };
     let mut threads: Vec<(String, Vec<Act>)> = Vec::new();
@@ -118,6 +125,10 @@ pub fn gen_conc(prop: &PropDef, seed: u64, tier: &str) -> RunSpec {
         w.push(Act::Write(items));
         if r.chance(1, 6) {
             w.push(Act::Pause);
+        }
+        if r.chance(1, 10) {
+            // the write path seals a full memtable itself in real engines
+            w.push(Act::Rotate);
         }
     }
     threads.push(("writer".into(), w));
@@ -225,6 +236,17 @@ pub fn gen_conc(prop: &PropDef, seed: u64, tier: &str) -> RunSpec {
             }
         }
     }
+    // C18 variant: a thread that keeps asking for the highest seqno while flushes run
+    if prop.id == "C18" {
+        let mut a = Vec::new();
+        for _ in 0..(10 + r.usize(20)) * scale {
+            a.push(Act::CheckSeqno);
+            if r.chance(1, 3) {
+                a.push(Act::Pause);
+            }
+        }
+        threads.push(("seqno-checker".into(), a));
+    }
     // optional auditor
     if r.chance(1, 2) {
         let mut a = Vec::new();
@@ -288,6 +310,19 @@ fn thread_body(
         sched::yield_point("actor:next");
         match act {
             Act::Pause => {}
+            Act::CheckSeqno => {
+                let ev_start = shared.next_ev();
+                let got = tree.get_highest_seqno();
+                // nothing can be stored that was not allocated yet
+                let hi = sched::no_yield(|| seqno.get());
+                shared.push(Ev::SeqnoCheck {
+                    tid,
+                    ev_start,
+                    got,
+                    hi,
+                    ev: shared.next_ev(),
+                });
+            }
             Act::Audit => {
                 let (a, probs) = audit::audit_tree_checked(&tree);
                 if probs.is_empty() {
@@ -322,6 +357,7 @@ fn thread_body(
                     }
                 }
                 visible.fetch_max(s + 1);
+                shared.last_done.store(s, Ordering::SeqCst);
                 shared.push(Ev::WriteEnd {
                     s,
                     ev: shared.next_ev(),
@@ -562,6 +598,7 @@ pub fn run_conc(prop: &PropDef, spec: &RunSpec, workdir: &Path, index: u64) -> R
         crate::simfs::set_yield_on_fs(true);
     }
     let shared = Arc::new(SharedState {
+        last_done: AtomicU64::new(u64::MAX),
         log: Mutex::new(Vec::new()),
         ev: AtomicU64::new(1),
         live: Mutex::new(BTreeMap::new()),
@@ -723,6 +760,43 @@ pub fn run_conc(prop: &PropDef, spec: &RunSpec, workdir: &Path, index: u64) -> R
             match e {
                 Ev::SnapOpen { tid, s, ev } => {
                     snap_ev.insert((*tid, *s), *ev);
+                }
+                Ev::SeqnoCheck { tid, ev_start, got, hi, ev } => {
+                    stats.inc("conc_seqno_checks");
+                    // lower bound: an inserted value that had been acknowledged before the call
+                    // started and was still the newest write to its key when the call returned
+                    // is stored (in a memtable or a table) during the whole call - it cannot
+                    // have been garbage-collected or evicted
+                    let mut lo: Option<u64> = None;
+                    for (ws, items, _b, end) in &writes {
+                        if !end.is_some_and(|e| e != 0 && e < *ev_start) {
+                            continue;
+                        }
+                        for w in items.iter().filter(|w| w.kind == WKind::Put) {
+                            let superseded = writes.iter().any(|(os, oitems, ob, _)| {
+                                os > ws && *ob < *ev && oitems.iter().any(|o| o.k == w.k)
+                            });
+                            if !superseded {
+                                lo = lo.max(Some(*ws));
+                            }
+                        }
+                    }
+                    let too_low = match (lo, got) {
+                        (Some(l), Some(g)) => *g < l,
+                        (Some(_), None) => true,
+                        _ => false,
+                    };
+                    let too_high = got.is_some_and(|g| g >= *hi);
+                    if too_low || too_high {
+                        outcome = fail(
+                            "seqno",
+                            if too_low { "seqno/concurrent-too-low" } else { "seqno/concurrent-too-high" },
+                            format!(
+                                "thread {tid}, call between events {ev_start} and {ev}: get_highest_seqno() = {got:?}, but the value written with seqno {lo:?} was acknowledged before the call and not overwritten until it returned (counter stood at {hi})"
+                            ),
+                        );
+                        break;
+                    }
                 }
                 Ev::AuditOk { shape } => {
                     stats.states.insert(*shape);
